@@ -43,6 +43,8 @@ def _has_proxy(x, depth=0):
 def _has_symbolic(x, depth=0):
     if isinstance(x, (SNum, SBool)):
         return True
+    if type(x).__name__ == 'Log2Of':
+        return True
     if isinstance(x, str):
         from . import strs
         return strs.is_sstr(x)
@@ -621,16 +623,14 @@ class Log2Of:
     def __init__(self, arg):
         self.arg = arg     # SNum (float with value > 0)
     def ceil(self):
+        """bit-length contract; the value is made concrete per path (forks over the possible lengths)"""
         core.CTX.assumed_used.add('numpy: ceil(log2(x)) == n with 2^(n-1) < x <= 2^n for doubles x = m + 0.5, m < 2^52')
         x = zreal(self.arg)
-        n = core.CTX.fresh('blen', 'int')
-        cons = [n >= -1, n <= 64]
-        for k in range(-1, 65):
+        for k in range(-1, 66):
             lo = core.zreal(core.pow2(k - 1)); hi = core.zreal(core.pow2(k))
-            cons.append((n == k) == z3.And(x > lo, x <= hi))
-        core.CTX.solver.add(*cons)
-        core.CTX.solver.add(x > core.zreal(core.pow2(-2)), x <= core.zreal(core.pow2(64)))
-        return SNum.float_of_intterm(n, 0)
+            if core.CTX.decide(z3.And(x > lo, x <= hi)):
+                return float(k)
+        raise Undecided('np.ceil(np.log2(x)) outside [2^-2, 2^65]')
     def __deepcopy__(self, memo):
         return self
 
